@@ -43,7 +43,7 @@ func TestVerifC02SecondHello(t *testing.T) {
 			s.HRRGroup = noShare[rapid.IntRange(0, len(noShare)-1).Draw(rt, "group")]
 		}
 		if mode != 0 || s.HRRGroup == 0 {
-			n := rapid.SampledFrom([]int{1, 2, 32, 255, 256, 300, 1200}).Draw(rt, "cookie_len")
+			n := rapid.SampledFrom([]int{1, 2, 32, 255, 256, 300, 1200, 5000, 20000}).Draw(rt, "cookie_len")
 			s.HRRCookie = rapid.SliceOfN(rapid.Byte(), n, n).Draw(rt, "cookie")
 		}
 		keys := vfCertKeysFor(o, VersionTLS13, "")
